@@ -173,7 +173,7 @@ structure TailOK (g : PGap) (cmt : List UInt8) (p : Bool) : Prop where
   run : gapRun p g = some false
   comment : commentOK cmt
 
-def tailText (g : PGap) (cmt : List UInt8) (crlf : Bool) : List UInt8 := gapText g ++ (cmt ++ eolText crlf)
+def tailText (g : PGap) (cmt : List UInt8) (eol : PEol) : List UInt8 := gapText g ++ (cmt ++ lineEnd eol)
 
 theorem fieldOrEol_endOfLine (cmt : List UInt8) (hc : commentOK cmt) (crlf : Bool) (r : List UInt8) (line : Nat) :
     fieldOrEol true (cmt ++ eolText crlf ++ r) line false = .ok (.Eol, ⟨r, line + 1, false⟩) := by
@@ -200,19 +200,52 @@ theorem fieldOrEol_endOfLine (cmt : List UInt8) (hc : commentOK cmt) (crlf : Boo
     · simp only [beq_self_eq_true, ↓reduceIte, List.append_assoc, skipToEol_bodyG body crlf r hb,
         takeEol_eolText]
 
-theorem fieldOrEol_tail (g : PGap) (cmt : List UInt8) (p : Bool) (h : TailOK g cmt p) (crlf : Bool)
-    (r : List UInt8) (line : Nat) :
-    fieldOrEol true (tailText g cmt crlf ++ r) line p = .ok (.Eol, ⟨r, line + gapLines g + 1, false⟩) := by
+theorem skipToEol_body_eof (body : List UInt8) (h : ∀ x ∈ body, x ≠ 10 ∧ x ≠ 13) : skipToEol body = [] := by
+  induction body with
+  | nil => rfl
+  | cons x body ih =>
+    have hx := h x (by simp)
+    rw [skipToEol]
+    have : eolLen (x :: body) = none := by simp [eolLen, hx.1, hx.2]
+    simp only [this, Option.isSome_none, Bool.false_eq_true, ↓reduceIte]
+    exact ih (fun y hy => h y (by simp [hy]))
+
+/-- the end of the file as the end of a line: an optional comment, then nothing -/
+theorem fieldOrEol_endOfFile (cmt : List UInt8) (hc : commentOK cmt) (line : Nat) :
+    fieldOrEol true cmt line false = .ok (.Eol, ⟨[], line, false⟩) := by
+  rcases hc with rfl | ⟨body, rfl, hb⟩
+  · rw [fieldOrEol.eq_def]; rfl
+  · rw [fieldOrEol.eq_def]
+    have : eolLen (59 :: body) = none := by simp [eolLen]
+    simp only [show isWs 59 = false from by decide, Bool.false_eq_true, ↓reduceIte]
+    split
+    · next n hn => rw [this] at hn; cases hn
+    · simp [skipToEol_body_eof body hb, takeEol, eolLen]
+
+/-- a line end of any kind, read outside parentheses -/
+theorem fieldOrEol_lineEnd (cmt : List UInt8) (hc : commentOK cmt) (eol : PEol) (r : List UInt8)
+    (he : eol = .eof → r = []) (line : Nat) :
+    fieldOrEol true (cmt ++ lineEnd eol ++ r) line false = .ok (.Eol, ⟨r, line + eolLines eol, false⟩) := by
+  cases eol with
+  | lf => exact fieldOrEol_endOfLine cmt hc false r line
+  | crlf => exact fieldOrEol_endOfLine cmt hc true r line
+  | eof =>
+    have := he rfl
+    subst this
+    simpa [lineEnd, eolLines] using fieldOrEol_endOfFile cmt hc line
+
+theorem fieldOrEol_tail_gen (g : PGap) (cmt : List UInt8) (p : Bool) (h : TailOK g cmt p) (E r : List UInt8) (dl : Nat)
+    (hbase : ∀ line, fieldOrEol true (cmt ++ E ++ r) line false = .ok (.Eol, ⟨r, line + dl, false⟩)) (line : Nat) :
+    fieldOrEol true (gapText g ++ (cmt ++ E) ++ r) line p = .ok (.Eol, ⟨r, line + gapLines g + dl, false⟩) := by
   obtain ⟨hwf, hrun, hc⟩ := h
-  unfold tailText
   induction g generalizing p line with
   | nil =>
     simp only [gapRun, Option.some.injEq] at hrun
     subst hrun
-    simpa [gapText, gapLines] using fieldOrEol_endOfLine cmt hc crlf r line
+    simpa [gapText, gapLines] using hbase line
   | cons x g ih =>
-    have e : gapText (x :: g) ++ (cmt ++ eolText crlf) ++ r =
-        gapItemText x ++ (gapText g ++ (cmt ++ eolText crlf) ++ r) := by simp [gapText]
+    have e : gapText (x :: g) ++ (cmt ++ E) ++ r =
+        gapItemText x ++ (gapText g ++ (cmt ++ E) ++ r) := by simp [gapText]
     rw [e]
     cases x with
     | blank tab =>
@@ -227,7 +260,7 @@ theorem fieldOrEol_tail (g : PGap) (cmt : List UInt8) (p : Bool) (h : TailOK g c
       | false =>
         simp only [gapRun] at hrun
         rw [gapItemText, List.singleton_append, fieldOrEol.eq_def]
-        have he : eolLen (40 :: (gapText g ++ (cmt ++ eolText crlf) ++ r)) = none := by simp [eolLen]
+        have he : eolLen (40 :: (gapText g ++ (cmt ++ E) ++ r)) = none := by simp [eolLen]
         simp only [show isWs 40 = false from by decide, Bool.false_eq_true, ↓reduceIte]
         split
         · next n hn => rw [he] at hn; cases hn
@@ -240,7 +273,7 @@ theorem fieldOrEol_tail (g : PGap) (cmt : List UInt8) (p : Bool) (h : TailOK g c
       | true =>
         simp only [gapRun] at hrun
         rw [gapItemText, List.singleton_append, fieldOrEol.eq_def]
-        have he : eolLen (41 :: (gapText g ++ (cmt ++ eolText crlf) ++ r)) = none := by simp [eolLen]
+        have he : eolLen (41 :: (gapText g ++ (cmt ++ E) ++ r)) = none := by simp [eolLen]
         simp only [show isWs 41 = false from by decide, Bool.false_eq_true, ↓reduceIte]
         split
         · next n hn => rw [he] at hn; cases hn
@@ -258,23 +291,40 @@ theorem fieldOrEol_tail (g : PGap) (cmt : List UInt8) (p : Bool) (h : TailOK g c
         congr 3
         omega
 
-theorem atFieldEnd_tail (g : PGap) (cmt : List UInt8) (p : Bool) (h : TailOK g cmt p) (crlf : Bool)
-    (r : List UInt8) : atFieldEnd (tailText g cmt crlf ++ r) = true := by
+
+theorem fieldOrEol_tail (g : PGap) (cmt : List UInt8) (p : Bool) (h : TailOK g cmt p) (eol : PEol)
+    (r : List UInt8) (he : eol = .eof → r = []) (line : Nat) :
+    fieldOrEol true (tailText g cmt eol ++ r) line p = .ok (.Eol, ⟨r, line + gapLines g + eolLines eol, false⟩) :=
+  fieldOrEol_tail_gen g cmt p h (lineEnd eol) r (eolLines eol) (fun l => fieldOrEol_lineEnd cmt h.comment eol r he l) line
+
+theorem atFieldEnd_tail (g : PGap) (cmt : List UInt8) (p : Bool) (h : TailOK g cmt p) (eol : PEol)
+    (r : List UInt8) (he : eol = .eof → r = []) : atFieldEnd (tailText g cmt eol ++ r) = true := by
   unfold tailText
   cases g with
   | cons x g =>
-    have := atFieldEnd_gapG (x :: g) (by simp) h.wf ((cmt ++ eolText crlf) ++ r)
+    have := atFieldEnd_gapG (x :: g) (by simp) h.wf ((cmt ++ lineEnd eol) ++ r)
     simpa using this
   | nil =>
-    have := gapItemText_atEnd (.newline cmt crlf) (by intro c crlf' hh; cases hh; exact h.comment) r
-    simpa [gapText, gapItemText] using this
+    cases eol with
+    | lf =>
+      have := gapItemText_atEnd (.newline cmt false) (by intro c crlf' hh; cases hh; exact h.comment) r
+      simpa [gapText, gapItemText, lineEnd, eolText] using this
+    | crlf =>
+      have := gapItemText_atEnd (.newline cmt true) (by intro c crlf' hh; cases hh; exact h.comment) r
+      simpa [gapText, gapItemText, lineEnd, eolText] using this
+    | eof =>
+      have := he rfl
+      subst this
+      rcases h.comment with rfl | ⟨body, rfl, _⟩
+      · simp [gapText, lineEnd, atFieldEnd]
+      · simp [gapText, lineEnd, atFieldEnd, endsField]
 
-theorem expectEol_tail (g : PGap) (cmt : List UInt8) (p : Bool) (h : TailOK g cmt p) (crlf : Bool)
-    (r : List UInt8) (line : Nat) :
-    expectEol ⟨tailText g cmt crlf ++ r, line, p⟩ = .ok ((), ⟨r, line + gapLines g + 1, false⟩) := by
+theorem expectEol_tail (g : PGap) (cmt : List UInt8) (p : Bool) (h : TailOK g cmt p) (eol : PEol)
+    (r : List UInt8) (he : eol = .eof → r = []) (line : Nat) :
+    expectEol ⟨tailText g cmt eol ++ r, line, p⟩ = .ok ((), ⟨r, line + gapLines g + eolLines eol, false⟩) := by
   unfold expectEol skipToNextFieldOrThroughEol
   simp only [bind, P.bind]
-  rw [fieldOrEol_tail g cmt p h crlf r line]
+  rw [fieldOrEol_tail g cmt p h eol r he line]
   rfl
 
 /-- blanks are a gap -/
@@ -304,26 +354,26 @@ theorem gapRun_blanks (ws : List UInt8) (p : Bool) : gapRun p (blanksOf ws) = so
 theorem TailOK_blanks (ws cmt : List UInt8) (hc : commentOK cmt) : TailOK (blanksOf ws) cmt false :=
   ⟨by intro c crlf h; simp [blanksOf] at h, gapRun_blanks ws false, hc⟩
 
-theorem tailText_blanks (ws cmt : List UInt8) (hws : ∀ x ∈ ws, isWs x = true) (crlf : Bool) (r : List UInt8) :
-    tailText (blanksOf ws) cmt crlf ++ r = ws ++ (cmt ++ (eolText crlf ++ r)) := by
+theorem tailText_blanks (ws cmt : List UInt8) (hws : ∀ x ∈ ws, isWs x = true) (eol : PEol) (r : List UInt8) :
+    tailText (blanksOf ws) cmt eol ++ r = ws ++ (cmt ++ (lineEnd eol ++ r)) := by
   simp [tailText, gapText_blanks ws hws]
 
-/-- the end of a line outside parentheses: blanks, an optional comment, LF or CRLF -/
-theorem fieldOrEol_eolG (ws cmt : List UInt8) (hws : ∀ x ∈ ws, isWs x = true) (hc : commentOK cmt) (crlf : Bool)
-    (r : List UInt8) (line : Nat) :
-    fieldOrEol true (ws ++ (cmt ++ (eolText crlf ++ r))) line false = .ok (.Eol, ⟨r, line + 1, false⟩) := by
-  have := fieldOrEol_tail (blanksOf ws) cmt false (TailOK_blanks ws cmt hc) crlf r line
+/-- the end of a line outside parentheses: blanks, an optional comment, a line end -/
+theorem fieldOrEol_eolG (ws cmt : List UInt8) (hws : ∀ x ∈ ws, isWs x = true) (hc : commentOK cmt) (eol : PEol)
+    (r : List UInt8) (he : eol = .eof → r = []) (line : Nat) :
+    fieldOrEol true (ws ++ (cmt ++ (lineEnd eol ++ r))) line false = .ok (.Eol, ⟨r, line + eolLines eol, false⟩) := by
+  have := fieldOrEol_tail (blanksOf ws) cmt false (TailOK_blanks ws cmt hc) eol r he line
   rwa [tailText_blanks ws cmt hws, gapLines_blanks] at this
 
-theorem atFieldEnd_eolG (ws cmt : List UInt8) (hws : ∀ x ∈ ws, isWs x = true) (hc : commentOK cmt) (crlf : Bool)
-    (r : List UInt8) : atFieldEnd (ws ++ (cmt ++ (eolText crlf ++ r))) = true := by
-  have := atFieldEnd_tail (blanksOf ws) cmt false (TailOK_blanks ws cmt hc) crlf r
+theorem atFieldEnd_eolG (ws cmt : List UInt8) (hws : ∀ x ∈ ws, isWs x = true) (hc : commentOK cmt) (eol : PEol)
+    (r : List UInt8) (he : eol = .eof → r = []) : atFieldEnd (ws ++ (cmt ++ (lineEnd eol ++ r))) = true := by
+  have := atFieldEnd_tail (blanksOf ws) cmt false (TailOK_blanks ws cmt hc) eol r he
   rwa [tailText_blanks ws cmt hws] at this
 
-theorem expectEol_eolG (ws cmt : List UInt8) (hws : ∀ x ∈ ws, isWs x = true) (hc : commentOK cmt) (crlf : Bool)
-    (r : List UInt8) (line : Nat) :
-    expectEol ⟨ws ++ (cmt ++ (eolText crlf ++ r)), line, false⟩ = .ok ((), ⟨r, line + 1, false⟩) := by
-  have := expectEol_tail (blanksOf ws) cmt false (TailOK_blanks ws cmt hc) crlf r line
+theorem expectEol_eolG (ws cmt : List UInt8) (hws : ∀ x ∈ ws, isWs x = true) (hc : commentOK cmt) (eol : PEol)
+    (r : List UInt8) (he : eol = .eof → r = []) (line : Nat) :
+    expectEol ⟨ws ++ (cmt ++ (lineEnd eol ++ r)), line, false⟩ = .ok ((), ⟨r, line + eolLines eol, false⟩) := by
+  have := expectEol_tail (blanksOf ws) cmt false (TailOK_blanks ws cmt hc) eol r he line
   rwa [tailText_blanks ws cmt hws, gapLines_blanks] at this
 
 /-- a line end (after blanks and an optional comment) begins with an octet that is neither a
@@ -335,6 +385,20 @@ theorem eol_head (cmt : List UInt8) (hc : commentOK cmt) (crlf : Bool) (r : List
     · exact ⟨10, r, rfl, by decide, by decide⟩
     · exact ⟨13, 10 :: r, rfl, by decide, by decide⟩
   · exact ⟨59, _, rfl, by decide, by decide⟩
+
+/-- the same for any line end: nothing at all (end of file after no comment), or such an octet -/
+theorem lineEnd_head (cmt : List UInt8) (hc : commentOK cmt) (eol : PEol) (r : List UInt8) (he : eol = .eof → r = []) :
+    cmt ++ (lineEnd eol ++ r) = [] ∨
+      ∃ c t, cmt ++ (lineEnd eol ++ r) = c :: t ∧ isWs c = false ∧ (c == 36) = false := by
+  cases eol with
+  | lf => exact .inr (eol_head cmt hc false r)
+  | crlf => exact .inr (eol_head cmt hc true r)
+  | eof =>
+    have := he rfl
+    subst this
+    rcases hc with rfl | ⟨body, rfl, _⟩
+    · exact .inl rfl
+    · exact .inr ⟨59, _, rfl, by decide, by decide⟩
 
 /-! ### blanks at the start of a gap (`skip_whitespace` at the start of a line) -/
 
